@@ -89,6 +89,40 @@ def random_dag(rng, n):
     return adj
 
 
+def grow_plan(adj, rng):
+    """a sequence of public mutator calls that ends in `adj` (or in `adj` plus a closing edge / minus a source), with
+    query points in between: ("node", k, children) ("child", a, b) ("remove", k) ("query",)"""
+    keys = list(adj)
+    rng.shuffle(keys)
+    plan, later = [], []
+    for k in keys:
+        cs = list(adj[k])
+        rng.shuffle(cs)
+        cut = rng.randint(0, len(cs))
+        plan.append(("node", k, cs[:cut]))
+        later += [(k, c) for c in cs[cut:]]
+        if rng.random() < 0.35:
+            plan.append(("query",))
+    rng.shuffle(later)
+    for a, b in later:
+        plan.append(("child", a, b))
+        if rng.random() < 0.5:
+            plan.append(("query",))
+    plan.append(("query",))
+    r = rng.random()
+    if r < 0.2:
+        a = rng.choice(keys)
+        reach = sorted(ref_reach(adj, a))
+        if reach:
+            plan.append(("child", rng.choice(reach), a))  # closes a cycle after everything was queried
+    elif r < 0.4:
+        par = ref_parents(adj)
+        srcs = [k for k in keys if not par[k]]
+        if srcs and len(keys) > 1:
+            plan.append(("remove", rng.choice(srcs)))
+    return plan
+
+
 def build_mapping(adj, rng):
     """node -> children mapping in a random insertion order (dict order is behaviour)."""
     keys = list(adj)
@@ -111,6 +145,8 @@ class GraphCheck:
                 specs.append({"seed": seed, "kind": "enum", "n": 6, "orders": 1, "part": part, "parts": 32})
             for i in range(8):
                 specs.append({"seed": seed, "kind": "random", "shard": i, "count": 260, "cyclic": 30})
+            for i in range(4):
+                specs.append({"seed": seed, "kind": "incremental", "shard": i, "count": 300})
         else:
             for n in range(1, 6):
                 specs.append({"seed": seed, "kind": "enum", "n": n, "orders": 6, "part": 0, "parts": 1})
@@ -118,6 +154,8 @@ class GraphCheck:
                 specs.append({"seed": seed, "kind": "enum", "n": 6, "orders": 6, "part": part, "parts": 32})
             for i in range(32):
                 specs.append({"seed": seed, "kind": "random", "shard": i, "count": 1600, "cyclic": 100})
+            for i in range(16):
+                specs.append({"seed": seed, "kind": "incremental", "shard": i, "count": 2500})
         return specs
 
     def replay_spec(self, case):
@@ -150,10 +188,13 @@ class GraphCheck:
                     if idx % spec["parts"] != spec["part"]:
                         continue
                     for _ in range(spec["orders"]):
-                        yield adj, False
+                        yield adj, False, False
+            elif spec["kind"] == "incremental":
+                for _ in range(spec["count"]):
+                    yield random_dag(rng, rng.randint(2, 9)), False, True
             else:
                 for _ in range(spec["count"]):
-                    yield random_dag(rng, rng.randint(6, 40)), False
+                    yield random_dag(rng, rng.randint(6, 40)), False, False
                 for _ in range(spec["cyclic"]):
                     adj = random_dag(rng, rng.randint(2, 12))
                     # close a cycle along an existing path or a self loop
@@ -164,9 +205,9 @@ class GraphCheck:
                         adj[rng.choice(sorted(reach))].append(a)
                     else:
                         adj[a].append(a)
-                    yield adj, True
+                    yield adj, True, False
 
-        for adj, cyclic in cases():
+        for adj, cyclic, incremental in cases():
             bump("graphs")
             n = len(adj)
             w = {i: rng.choice([1, 1, 2, 3, 5, 7, 7]) for i in adj}
@@ -200,129 +241,184 @@ class GraphCheck:
                     weight = lambda x: x.slowest_execution_strategy.runtime.time  # noqa: E731
             inv = {id(v) if flavour != "graph" else v: k for k, v in nodes.items()}
 
+            def make_empty():
+                if flavour == "graph":
+                    return Graph()
+                return wl.JobGraph(name="JG") if flavour == "job" else wl.TaskGraph(name="TG")
+
+            def add_with_children(g, k, cs):
+                kids = [nodes[c] for c in cs]
+                if flavour == "graph":
+                    g.add_node(nodes[k], *kids)
+                elif flavour == "job":
+                    g.add_job(nodes[k], kids)
+                else:
+                    g.add_task(nodes[k], kids)
+
             def idx(x):
                 return inv[x if flavour == "graph" else id(x)]
 
-            if cyclic or has_cycle(adj):
-                bump("cyclic")
-                try:
-                    g.topological_sort()
-                    bad("cycle_not_reported", "topological_sort returned on a cyclic graph", adj)
-                except RuntimeError:
-                    bump("cycle_reported")
-                except RecursionError:
-                    bad("cycle_recursion", "RecursionError instead of RuntimeError", adj)
-                continue
+            def judge(g, adj, cyclic):
+                n = len(adj)
+                if cyclic or has_cycle(adj):
+                    bump("cyclic")
+                    try:
+                        g.topological_sort()
+                        bad("cycle_not_reported", "topological_sort returned on a cyclic graph", adj)
+                    except RuntimeError:
+                        bump("cycle_reported")
+                    except RecursionError:
+                        bad("cycle_recursion", "RecursionError instead of RuntimeError", adj)
+                    return
 
-            par = ref_parents(adj)
-            edges = sum(len(c) for c in adj.values())
-            if edges >= 2 and any(len(p) >= 2 for p in par.values()):
-                nontrivial.add(case_hash(sorted((k, sorted(v)) for k, v in adj.items())))
-            # topological sort
-            try:
-                ts = [idx(x) for x in g.topological_sort()]
-                pos = {x: i for i, x in enumerate(ts)}
-                if sorted(ts) != sorted(adj):
-                    bad("topological_sort_nodes", f"order {ts}", adj)
-                elif any(pos[p] > pos[c] for p in adj for c in adj[p]):
-                    bad("topological_sort_order", f"order {ts}", adj)
-                bump("topological_sort")
-            except Exception as e:
-                bad("topological_sort_raises", f"{type(e).__name__}: {e}", adj)
-            # longest path with explicit weights
-            try:
-                lp = [idx(x) for x in g.get_longest_path(weights=weight)]
-                best = ref_longest(adj, w)
-                ok_path = (len(lp) > 0 and not par[lp[0]] and not adj[lp[-1]]
-                           and all(lp[i + 1] in adj[lp[i]] for i in range(len(lp) - 1)))
-                if not ok_path:
-                    bad("longest_path_not_a_source_sink_path", f"path {lp}", adj)
-                elif sum(w[x] for x in lp) != best:
-                    bad("longest_path_not_maximal", f"path {lp} weight {sum(w[x] for x in lp)} max {best} weights {w}", adj)
-                bump("longest_path")
-                if flavour == "task":
-                    cp = g.critical_path_runtime.time
-                    if cp != best:
-                        bad("critical_path_runtime", f"TaskGraph.critical_path_runtime {cp} != {best} weights {w}", adj)
-                    bump("critical_path")
-                if flavour == "job":
-                    cp, ct = g.critical_path_runtime.time, g.completion_time.time
-                    if cp != best or ct != best:
-                        bad("critical_path_runtime", f"JobGraph critical_path_runtime {cp} completion_time {ct} != {best} weights {w}", adj)
-                    bump("critical_path")
-                # default weights: source 1, every further node 2 -> longest path by node count
-                lpd = [idx(x) for x in g.get_longest_path()]
-                bestn = ref_longest(adj, {i: 1 for i in adj})
-                okd = (len(lpd) > 0 and not par[lpd[0]] and not adj[lpd[-1]]
-                       and all(lpd[i + 1] in adj[lpd[i]] for i in range(len(lpd) - 1)))
-                if not okd or len(lpd) != bestn:
-                    bad("longest_path_default_weights", f"path {lpd} but the longest source-sink path has {bestn} nodes", adj)
-            except Exception as e:
-                bad("longest_path_raises", f"{type(e).__name__}: {e}", adj)
-            # depth, sources
-            try:
-                rd = ref_depth(adj)
-                probe = list(adj) if n <= 8 else rng.sample(list(adj), 6)
-                for i in probe:
-                    d = g.get_node_depth(nodes[i])
-                    if d != rd[i]:
-                        bad("node_depth", f"depth({i}) = {d}, expected {rd[i]}", adj)
-                    if g.is_source(nodes[i]) != (not par[i]):
-                        bad("is_source", f"is_source({i})", adj)
+                par = ref_parents(adj)
+                edges = sum(len(c) for c in adj.values())
+                if edges >= 2 and any(len(p) >= 2 for p in par.values()):
+                    nontrivial.add(case_hash(sorted((k, sorted(v)) for k, v in adj.items())))
+                # topological sort
+                try:
+                    ts = [idx(x) for x in g.topological_sort()]
+                    pos = {x: i for i, x in enumerate(ts)}
+                    if sorted(ts) != sorted(adj):
+                        bad("topological_sort_nodes", f"order {ts}", adj)
+                    elif any(pos[p] > pos[c] for p in adj for c in adj[p]):
+                        bad("topological_sort_order", f"order {ts}", adj)
+                    bump("topological_sort")
+                except Exception as e:
+                    bad("topological_sort_raises", f"{type(e).__name__}: {e}", adj)
+                # longest path with explicit weights
+                try:
+                    lp = [idx(x) for x in g.get_longest_path(weights=weight)]
+                    best = ref_longest(adj, w)
+                    ok_path = (len(lp) > 0 and not par[lp[0]] and not adj[lp[-1]]
+                               and all(lp[i + 1] in adj[lp[i]] for i in range(len(lp) - 1)))
+                    if not ok_path:
+                        bad("longest_path_not_a_source_sink_path", f"path {lp}", adj)
+                    elif sum(w[x] for x in lp) != best:
+                        bad("longest_path_not_maximal", f"path {lp} weight {sum(w[x] for x in lp)} max {best} weights {w}", adj)
+                    bump("longest_path")
                     if flavour == "task":
-                        if g.is_source_task(nodes[i]) != (not par[i]) or g.is_sink_task(nodes[i]) != (not adj[i]):
-                            bad("is_source_or_sink_task", f"node {i}", adj)
-                bump("depth_probes", len(probe))
-                if sorted(idx(x) for x in g.get_sources()) != sorted(i for i in adj if not par[i]):
-                    bad("get_sources", f"{[idx(x) for x in g.get_sources()]}", adj)
-                if flavour == "task":
-                    if sorted(idx(x) for x in g.get_sink_tasks()) != sorted(i for i in adj if not adj[i]) or \
-                            sorted(idx(x) for x in g.get_source_tasks()) != sorted(i for i in adj if not par[i]):
-                        bad("get_source_or_sink_tasks", "", adj)
-            except Exception as e:
-                bad("depth_raises", f"{type(e).__name__}: {e}", adj)
-            # are_dependent
-            try:
-                prs = list(itertools.combinations(adj, 2))
-                if len(prs) > 15:
-                    prs = rng.sample(prs, 15)
-                for a, b in prs:
-                    exp = (b in ref_reach(adj, a)) or (a in ref_reach(adj, b))
-                    if rng.random() < 0.5:
-                        a, b = b, a
-                    got = g.are_dependent(nodes[a], nodes[b])
-                    if got != exp:
-                        bad("are_dependent", f"are_dependent({a},{b}) = {got}, reachability says {exp}", adj)
-                    bump("are_dependent")
-            except Exception as e:
-                bad("are_dependent_raises", f"{type(e).__name__}: {e}", adj)
-            # traversals
-            try:
-                bf = [idx(x) for x in g.breadth_first()]
-                posb = {}
-                for i, x in enumerate(bf):
-                    posb.setdefault(x, i)
-                if sorted(bf) != sorted(adj):
-                    bad("breadth_first_nodes", f"yielded {bf}", adj)
-                elif any(posb[p] > posb[c] for p in adj for c in adj[p]):
-                    bad("breadth_first_order", f"yielded {bf}", adj)
-                if [idx(x) for x in iter(g)] != bf:
-                    bad("iter_not_breadth_first", "", adj)
-                bump("breadth_first")
-                starts = list(adj) if n <= 8 else rng.sample(list(adj), 5)
-                for s in starts:
-                    df = [idx(x) for x in g.depth_first(nodes[s])]
-                    exp = ref_reach(adj, s) | {s}
-                    if set(df) != exp:
-                        bad("depth_first_set", f"from {s}: yielded {df}, reachable {sorted(exp)}", adj)
-                    elif len(df) != len(set(df)):
-                        bad("depth_first_duplicates", f"from {s}: yielded {df}", adj)
-                    bump("depth_first")
-                dfa = [idx(x) for x in g.depth_first()]
-                if set(dfa) != set(adj) or len(dfa) != len(set(dfa)):
-                    bad("depth_first_all" if set(dfa) != set(adj) else "depth_first_duplicates", f"from sources: yielded {dfa}", adj)
-            except Exception as e:
-                bad("traversal_raises", f"{type(e).__name__}: {e}", adj)
+                        cp = g.critical_path_runtime.time
+                        if cp != best:
+                            bad("critical_path_runtime", f"TaskGraph.critical_path_runtime {cp} != {best} weights {w}", adj)
+                        bump("critical_path")
+                    if flavour == "job":
+                        cp, ct = g.critical_path_runtime.time, g.completion_time.time
+                        if cp != best or ct != best:
+                            bad("critical_path_runtime", f"JobGraph critical_path_runtime {cp} completion_time {ct} != {best} weights {w}", adj)
+                        bump("critical_path")
+                    # default weights: source 1, every further node 2 -> longest path by node count
+                    lpd = [idx(x) for x in g.get_longest_path()]
+                    bestn = ref_longest(adj, {i: 1 for i in adj})
+                    okd = (len(lpd) > 0 and not par[lpd[0]] and not adj[lpd[-1]]
+                           and all(lpd[i + 1] in adj[lpd[i]] for i in range(len(lpd) - 1)))
+                    if not okd or len(lpd) != bestn:
+                        bad("longest_path_default_weights", f"path {lpd} but the longest source-sink path has {bestn} nodes", adj)
+                except Exception as e:
+                    bad("longest_path_raises", f"{type(e).__name__}: {e}", adj)
+                # depth, sources
+                try:
+                    rd = ref_depth(adj)
+                    probe = list(adj) if n <= 8 else rng.sample(list(adj), 6)
+                    for i in probe:
+                        d = g.get_node_depth(nodes[i])
+                        if d != rd[i]:
+                            bad("node_depth", f"depth({i}) = {d}, expected {rd[i]}", adj)
+                        if g.is_source(nodes[i]) != (not par[i]):
+                            bad("is_source", f"is_source({i})", adj)
+                        if flavour == "task":
+                            if g.is_source_task(nodes[i]) != (not par[i]) or g.is_sink_task(nodes[i]) != (not adj[i]):
+                                bad("is_source_or_sink_task", f"node {i}", adj)
+                    bump("depth_probes", len(probe))
+                    if sorted(idx(x) for x in g.get_sources()) != sorted(i for i in adj if not par[i]):
+                        bad("get_sources", f"{[idx(x) for x in g.get_sources()]}", adj)
+                    if flavour == "task":
+                        if sorted(idx(x) for x in g.get_sink_tasks()) != sorted(i for i in adj if not adj[i]) or \
+                                sorted(idx(x) for x in g.get_source_tasks()) != sorted(i for i in adj if not par[i]):
+                            bad("get_source_or_sink_tasks", "", adj)
+                except Exception as e:
+                    bad("depth_raises", f"{type(e).__name__}: {e}", adj)
+                # are_dependent
+                try:
+                    prs = list(itertools.combinations(adj, 2))
+                    if len(prs) > 15:
+                        prs = rng.sample(prs, 15)
+                    for a, b in prs:
+                        exp = (b in ref_reach(adj, a)) or (a in ref_reach(adj, b))
+                        if rng.random() < 0.5:
+                            a, b = b, a
+                        got = g.are_dependent(nodes[a], nodes[b])
+                        if got != exp:
+                            bad("are_dependent", f"are_dependent({a},{b}) = {got}, reachability says {exp}", adj)
+                        bump("are_dependent")
+                except Exception as e:
+                    bad("are_dependent_raises", f"{type(e).__name__}: {e}", adj)
+                # traversals
+                try:
+                    bf = [idx(x) for x in g.breadth_first()]
+                    posb = {}
+                    for i, x in enumerate(bf):
+                        posb.setdefault(x, i)
+                    if sorted(bf) != sorted(adj):
+                        bad("breadth_first_nodes", f"yielded {bf}", adj)
+                    elif any(posb[p] > posb[c] for p in adj for c in adj[p]):
+                        bad("breadth_first_order", f"yielded {bf}", adj)
+                    if [idx(x) for x in iter(g)] != bf:
+                        bad("iter_not_breadth_first", "", adj)
+                    bump("breadth_first")
+                    starts = list(adj) if n <= 8 else rng.sample(list(adj), 5)
+                    for s in starts:
+                        df = [idx(x) for x in g.depth_first(nodes[s])]
+                        exp = ref_reach(adj, s) | {s}
+                        if set(df) != exp:
+                            bad("depth_first_set", f"from {s}: yielded {df}, reachable {sorted(exp)}", adj)
+                        elif len(df) != len(set(df)):
+                            bad("depth_first_duplicates", f"from {s}: yielded {df}", adj)
+                        bump("depth_first")
+                    dfa = [idx(x) for x in g.depth_first()]
+                    if set(dfa) != set(adj) or len(dfa) != len(set(dfa)):
+                        bad("depth_first_all" if set(dfa) != set(adj) else "depth_first_duplicates", f"from sources: yielded {dfa}", adj)
+                except Exception as e:
+                    bad("traversal_raises", f"{type(e).__name__}: {e}", adj)
+
+            if incremental:
+                # the graph is grown through its public mutators and judged in between: whatever an earlier query
+                # computed (orders, depths, paths) must not survive a later add_node / add_child / remove
+                plan = grow_plan(adj, rng)
+                cur = {}
+                g = make_empty()
+                for op in plan:
+                    if op[0] == "node":
+                        _, k, cs = op
+                        add_with_children(g, k, cs)
+                        cur.setdefault(k, [])
+                        for c in cs:
+                            cur[k].append(c)
+                            cur.setdefault(c, [])
+                        bump("mutations_add_node")
+                    elif op[0] == "child":
+                        _, a, b = op
+                        g.add_child(nodes[a], nodes[b])
+                        cur[a].append(b)
+                        cur.setdefault(b, [])
+                        bump("mutations_add_child")
+                    elif op[0] == "remove":
+                        _, k = op
+                        if k in cur and not any(k in cs for cs in cur.values()):
+                            g.remove(nodes[k])
+                            del cur[k]
+                            bump("mutations_remove_source")
+                    else:
+                        if cur:
+                            bump("queries_between_mutations")
+                            judge(g, {k: list(v) for k, v in cur.items()}, has_cycle(cur))
+                if cur:
+                    judge(g, {k: list(v) for k, v in cur.items()}, has_cycle(cur))
+                adj = cur
+                edges = sum(len(c) for c in adj.values())
+            else:
+                judge(g, adj, cyclic)
+                edges = sum(len(c) for c in adj.values())
             if len(samples) < 2 and edges >= 3:
                 samples.append({"adjacency": adj, "weights": w, "flavour": flavour, "insertion_order": [k for k, _ in mapping]})
         return {"viol": viol, "counters": counters, "samples": samples, "nontrivial": sorted(nontrivial),
@@ -340,12 +436,15 @@ class GraphCheck:
         inconclusive = []
         if tot.get("cycle_reported", 0) + sum(1 for v in viol if v["kind"].startswith("cycle")) < 100:
             inconclusive.append("fewer than 100 cyclic graphs")
-        for k in ("flavour_graph", "flavour_task", "flavour_job", "depth_first", "are_dependent", "critical_path"):
+        for k in ("flavour_graph", "flavour_task", "flavour_job", "depth_first", "are_dependent", "critical_path",
+                  "queries_between_mutations", "mutations_add_child"):
             if tot.get(k, 0) < 300:
                 inconclusive.append(f"{k} evaluated {tot.get(k, 0)} times")
         cov = {"evaluations": tot.get("graphs", 0), "distinct_nontrivial": len(nt),
                "rule": "every upper-triangular DAG on 1..5 nodes (x3 insertion orders; quick: 1/8 of the 6-node ones, thorough: all "
-                       "32768 x6 orders), random DAGs of 6-40 nodes, cyclic graphs; each built as Graph / TaskGraph / JobGraph "
+                       "32768 x6 orders), random DAGs of 6-40 nodes, cyclic graphs, and graphs of 2-9 nodes grown step by step through "
+                       "add_node/add_task/add_job, add_child and remove with every routine queried between the mutations "
+                       "(a closing edge or the removal of a source at the end); each built as Graph / TaskGraph / JobGraph "
                        "with random positive weights incl. ties; non-trivial = distinct adjacency with >=2 edges and a node with >=2 parents",
                "samples": [s for r in results for s in r["samples"]][:5],
                "exhaustive": False,
